@@ -30,6 +30,42 @@ class Profile:
         self.lat_max = d.get('lat_max', 200)
 
 
+class Deadlock(BaseException):
+    """A lock that is already held is acquired again: with every handler of the node running to completion on
+    one thread nobody can ever release it - the real node's thread would block here for good."""
+
+
+class SimLock:
+    """Stands in for threading.Lock in the chain manager (module attribute skepticoin.networking.manager.Lock)."""
+
+    def __init__(self):
+        self._held = False
+
+    def acquire(self, blocking=True, timeout=-1):
+        if self._held:
+            if not blocking:
+                return False
+            raise Deadlock('acquire() of a lock that was never released')
+        self._held = True
+        return True
+
+    def release(self):
+        if not self._held:
+            raise RuntimeError('release unlocked lock')
+        self._held = False
+
+    def locked(self):
+        return self._held
+
+    def __enter__(self):
+        self.acquire()
+        return self
+
+    def __exit__(self, *a):
+        self.release()
+        return False
+
+
 class EventStorm(Exception):
     """The run exceeded its total event budget (traffic that feeds on itself)."""
 
@@ -231,8 +267,7 @@ class SimSocket:
         return self.remote
 
     def connect_ex(self, addr):
-        self.net.connect(self, addr)
-        return errno.EINPROGRESS
+        return self.net.connect(self, addr) or errno.EINPROGRESS
 
     def recv(self, n):
         k = self.k
@@ -242,6 +277,8 @@ class SimSocket:
             raise ConnectionRefusedError(errno.ECONNREFUSED, 'Connection refused')
         if self.fail == 'timeout':
             raise TimeoutError(errno.ETIMEDOUT, 'Connection timed out')
+        if self.fail == 'unreachable':
+            raise OSError(errno.ENETUNREACH, 'Network is unreachable')
         if self.rx.reset:
             raise ConnectionResetError(errno.ECONNRESET, 'Connection reset by peer')
         avail = self.rx.available(k.now)
@@ -339,6 +376,7 @@ class SimNet:
         self.conns = []
         self.next_port = 0
         self.blackholes = set()    # (host, port) that never answer
+        self.unreachable = set()   # hosts for which connect fails at once (ENETUNREACH)
         self.force_local_port = None
         self.refuse = set()
 
@@ -369,6 +407,12 @@ class SimNet:
         lat = self.latency(sock)
         host, port = addr
         k.trace.add(k.now, 'connect', sock.owner.name, host, port)
+        if host in self.unreachable:
+            # a non-blocking connect can fail synchronously; the socket is then in an error state
+            k.bump('fault:connect_unreachable')
+            sock.fail = 'unreachable'
+            k.wake(sock.owner, k.now)
+            return errno.ENETUNREACH
         if k.partitioned(sock.owner.host, host) or (host, port) in self.blackholes:
             k.bump('fault:connect_timeout')
             k.at(k.now + CONNECT_TIMEOUT_MS, self._fail, sock, 'timeout')
@@ -593,6 +637,7 @@ class Shims:
         setattr_saved(rp, 'time', self.time)
         setattr_saved(rp, 'random', self.random)
         setattr_saved(mg, 'random', self.random)
+        setattr_saved(mg, 'Lock', SimLock)
         setattr_saved(mining, 'time', self.time)
         setattr_saved(mining, 'random', self.random)
         setattr_saved(di, 'datetime', self.datetime)
@@ -720,6 +765,11 @@ class SimNode(Task):
             # what LocalPeer.run does each iteration: step_managers, then handle_selector_events
             lp.handle_selector_events()
             busy = k.stats.get('bytes_sent', 0) != before
+        except Deadlock as e:
+            self.loop_error = ('Deadlock', 'the event loop blocks forever: %s' % e, '')
+            lp.running = False
+            k.bump('node_loop_died')
+            return
         except Exception as e:   # in LocalPeer.run this ends the loop for good
             import traceback
             self.loop_error = (type(e).__name__, str(e), traceback.format_exc())
